@@ -9,6 +9,32 @@ BASE_ASSUMPTIONS = [
 ]
 
 CHECKS = {
+    "C06": {
+        "quick": [
+            {"pkg": "v2", "entries": ["VerifC06Flat"], "params": {"N": 3, "M": 2, "WRAPS": 2}},
+            {"pkg": "v2", "entries": ["VerifC06Recurse"], "params": {"N": 3}},
+        ],
+        "thorough": [
+            {"pkg": "v2", "entries": ["VerifC06Flat"], "params": {"N": 3, "M": 3, "WRAPS": 4}},
+            {"pkg": "v2", "entries": ["VerifC06Flat"], "params": {"N": 4, "M": 2, "WRAPS": 1}},
+            {"pkg": "v2", "entries": ["VerifC06Flat"], "params": {"N": 2, "M": 4, "WRAPS": 1}},
+            {"pkg": "v2", "entries": ["VerifC06Recurse"], "params": {"N": 4}},
+        ],
+        "covers": ["c06.flat.root", "c06.flat.key", "c06.recurse"],
+        "outside": "arrays longer than the bounds; elements other than numbers in the minimality leg; FNV collisions",
+    },
+    "C07": {
+        "quick": [
+            {"pkg": "v2", "entries": ["VerifC07List", "VerifC07Obj", "VerifC07Set", "VerifC07Merge"], "params": {"N": 2}},
+        ],
+        "thorough": [
+            {"pkg": "v2", "entries": ["VerifC07List"], "params": {"N": 3}},
+            {"pkg": "v2", "entries": ["VerifC07Obj", "VerifC07Merge"], "params": {"N": 2, "INNER": 2}},
+            {"pkg": "v2", "entries": ["VerifC07Set"], "params": {"N": 3}},
+        ],
+        "covers": ["c07.list.root", "c07.list.key", "c07.obj", "c07.set.set", "c07.set.multiset", "c07.merge"],
+        "outside": "arrays longer than N; SetKeys hunks (covered for patch semantics in C08); FNV collisions",
+    },
     "C13": {
         "quick": [
             {"pkg": "v2", "entries": ["VerifC13Patch"], "params": {"PLEN": 1}},
@@ -84,7 +110,7 @@ DEFAULT_TECHNIQUE = "bounded symbolic execution of the Go SSA with SMT (z3/cvc5)
 
 _NA_PENDING = "check not built yet in this session (engine exists; harness pending)"
 NOT_APPLICABLE = {
-    "C02": _NA_PENDING, "C06": _NA_PENDING, "C07": _NA_PENDING,
+    "C02": _NA_PENDING, 
     "C08": _NA_PENDING, "C09": _NA_PENDING, "C10": _NA_PENDING, "C11": _NA_PENDING, "C12": _NA_PENDING,
     "C14": _NA_PENDING, "C15": _NA_PENDING, "C17": _NA_PENDING, "C18": _NA_PENDING,
     "C16": ("quantifies over the characters of strings as they pass through yaml.v2's scanner/resolver/emitter and encoding/json "
